@@ -23,3 +23,32 @@ PURL_SHAPE = dict(
     fn finish(&mut self, parts: &mut PurlParts) -> (r: Result<(), Self::Error>)
         ensures Self::finish_rel(*old(self), *old(parts), *final(self), *final(parts), r);''', 1),
     ])
+
+
+def sibling(name):
+    """Import a sibling group file (to reuse its unit definitions: one contract text, several groups)."""
+    import importlib.util, os
+    spec = importlib.util.spec_from_file_location('g_' + name, os.path.join(os.path.dirname(__file__), name + '.py'))
+    mod = importlib.util.module_from_spec(spec)
+    spec.loader.exec_module(mod)
+    return mod
+
+
+def unit_of(group_name, unit_id, **over):
+    g = sibling(group_name).GROUP
+    for u in g['units']:
+        if u['id'] == unit_id:
+            u = dict(u)
+            u.update(over)
+            return u
+    raise KeyError(unit_id)
+
+
+def contract_only(group_name, unit_id):
+    """The callee is verified in `group_name`; here only its contract is visible (modular verification)."""
+    return unit_of(group_name, unit_id, mode='contract_only', proved_in=group_name)
+
+
+def theory_text(name):
+    import os
+    return open(os.path.join(os.path.dirname(__file__), '..', 'theory', name)).read()
